@@ -151,4 +151,18 @@ func main() {
 		population(fmt.Sprintf("20893%010d", p10-2), 2, 5)
 		population(fmt.Sprintf("310260%09d", (p10-2)%1000000000), 3, 5)
 	}
+	// every pair of algorithms a context may hold: the advertised capability must be exactly those two (TS 24.501 9.11.3.54)
+	for enc := 0; enc < 4; enc++ {
+		for integ := 0; integ < 4; integ++ {
+			ue := tglib.NewRanUeContext("imsi-2089300000001", 1, uint8(enc), uint8(integ))
+			var buf []int
+			var iei, ln int
+			p := ev.Catch(func() {
+				c := ue.GetUESecurityCapability()
+				buf, iei, ln = ev.Ints(c.Buffer), int(c.Iei), int(c.Len)
+			})
+			w.Emit(ev.M{"ev": "Caps", "id": id, "enc": enc, "int": integ, "buf": buf, "iei": iei, "len": ln, "panic": p != ""})
+			id++
+		}
+	}
 }
